@@ -59,9 +59,11 @@ func (n *namer) fresh() string {
 var randScalars = []string{"double", "float", "int32", "int64", "uint32", "uint64", "sint32", "sint64", "fixed32", "fixed64", "sfixed32", "sfixed64", "bool", "string", "bytes"}
 
 func randComment(r *prng) string {
-	switch r.n(6) {
+	switch r.n(7) {
 	case 0:
 		return ""
+	case 5:
+		return " the package holding it\n package main\n"
 	case 1:
 		return " one line\n"
 	case 2:
@@ -215,6 +217,13 @@ func RandomProgram(id string, seed uint64) *spec.Program {
 			embeddable = rest
 			fs = append(fs, e)
 			simpleOnly = false
+		}
+		// field numbers are assigned before the declaration order is shuffled, with gaps (retired tags),
+		// so that a field's number is unrelated to its position
+		num := int32(0)
+		for i := range fs {
+			num += 1 + int32(r.n(3))
+			fs[i].Num = num
 		}
 		// shuffle declaration order
 		for i := len(fs) - 1; i > 0; i-- {
